@@ -768,14 +768,51 @@ pub(crate) fn check_if_response_is_matched(
             let first_last_n_header_number = headers[reorg_count].header().number();
             let last_last_n_header_number = headers[headers.len() - 1].header().number();
             let last_number = last_header.header().number();
-            if first_last_n_header_number != start_number
-                || last_last_n_header_number + 1 != last_number
-            {
-                let errmsg = format!(
+            // All new blocks are required only when the request asked for them, i.e. when no
+            // more than `last_n_blocks` blocks were missing. Otherwise samples were requested,
+            // and the server may legitimately find no block to sample before the last n blocks.
+            let requires_all_blocks =
+                last_number.saturating_sub(start_number) <= last_n_blocks as BlockNumber;
+            if requires_all_blocks {
+                if first_last_n_header_number != start_number
+                    || last_last_n_header_number + 1 != last_number
+                {
+                    let errmsg = format!(
                 "there should be all blocks of [{}, {}) since no sampled blocks, but got [{}, {}]",
                 start_number, last_number, first_last_n_header_number, last_last_n_header_number
             );
-                return Err(StatusCode::MalformedProtocolMessage.with_context(errmsg));
+                    return Err(StatusCode::MalformedProtocolMessage.with_context(errmsg));
+                }
+            } else {
+                if last_n_count < last_n_blocks || last_last_n_header_number + 1 != last_number {
+                    let errmsg = format!(
+                        "there should be at least last {} blocks before block#{} \
+                        since no sampled blocks, but got [{}, {}]",
+                        last_n_blocks,
+                        last_number,
+                        first_last_n_header_number,
+                        last_last_n_header_number
+                    );
+                    return Err(StatusCode::MalformedProtocolMessage.with_context(errmsg));
+                }
+                // No sampled blocks is valid only if no requested difficulty falls into the
+                // blocks which are omitted before the last n blocks.
+                let previous_total_diff_before_last_n: U256 = headers[reorg_count]
+                    .parent_chain_root()
+                    .total_difficulty()
+                    .unpack();
+                if first_last_n_header_number > start_number
+                    && prev_request.difficulties().into_iter().any(|item| {
+                        Unpack::<U256>::unpack(&item) <= previous_total_diff_before_last_n
+                    })
+                {
+                    let errmsg = format!(
+                        "there should be sampled blocks before block#{} \
+                        since some difficulties are sampled before it",
+                        first_last_n_header_number
+                    );
+                    return Err(StatusCode::MalformedProtocolMessage.with_context(errmsg));
+                }
             }
         }
     } else {
